@@ -50,6 +50,23 @@ example : valOKj benv0 subCtx .dict 3 "P".toList sub_good = true := by rfl
 /-- … and outside it when they do not (the known finding) -/
 example : valOKj benv0 subCtx .dict 3 "P".toList sub_value = false := by rfl
 
+/-- **dict_rt_universe**: the ambiguity condition as a property of the class universe alone. In a
+universe where no loaded class has a loaded subclass (`noSubclassPools`, decidable on the exported
+contexts) typing is enough: every instance whose field values have the declared types (`valOKu`:
+`valOKj` without its per-instance pool condition) round-trips, for both factories.  Outside such
+universes `bind_complex_type` builds candidate pools and the per-instance condition of `dict_rt`
+decides (`subclass_winners` is the witness that it cannot be dropped). -/
+theorem dict_rt_universe (e : BEnv) (Γ : Ctx) (fac : Factory) (cfg : ParserConfig) (n : Nat) (c : ClassId) (v : Val)
+    (huni : noSubclassPools Γ = true) (h : valOKu e Γ fac n c v = true) :
+    ∃ j, encode Γ fac {} n v = .ok j ∧ j.native = true ∧ decode e Γ cfg n (.cls c) j = ND.pure v :=
+  dict_rt e Γ fac cfg n c v (valOKu_valOKj e Γ fac huni n c v h)
+
+example : noSubclassPools okwCtx = true ∧ noSubclassPools genwCtx = true
+    ∧ valOKu benv0 okwCtx .filterNone 3 "Doc".toList okw_value = true
+    ∧ valOKu benv0 genwCtx .dict 4 "G".toList genw_value = true := ⟨by rfl, by rfl, by rfl, by rfl⟩
+/-- the universe of the listed finding is outside, although the instance is well typed -/
+example : noSubclassPools subCtx = false ∧ valOKu benv0 subCtx .dict 3 "P".toList sub_value = true := ⟨by rfl, by rfl⟩
+
 /-- **encode_json_native**: the encoded form of an instance of the fragment only holds
 JSON-native values: `encode` is total into the JSON AST and every object is a proper mapping
 (pairwise distinct keys at every level), so a JSON library dumps it and loads it back unchanged. -/
